@@ -13,20 +13,42 @@ import (
 type RefType struct {
 	Scope Scope
 	Name  string
+	// visiting is set while the referenced type is being visited
+	// through this reference: a type which refers to itself
+	// (directly or not) is reported as an error instead of being
+	// followed for ever.
+	visiting bool
 }
 
 // NewRefType is a contructor for the representation of a type reference to be
 // resolved with a TypeSet.
 func NewRefType(name string, scope Scope) signature.Type {
-	return &RefType{scope, name}
+	return &RefType{Scope: scope, Name: name}
+}
+
+// search returns the referenced type. It fails if the reference is
+// already being visited: the type is recursive.
+func (r *RefType) search() (signature.Type, error) {
+	if r.visiting {
+		return nil, fmt.Errorf("recursive type: %s", r.Name)
+	}
+	return r.Scope.Search(r.Name)
+}
+
+// visit marks the reference as being visited and returns the function
+// which ends the visit.
+func (r *RefType) visit() func() {
+	r.visiting = true
+	return func() { r.visiting = false }
 }
 
 // Signature returns the signature of the referenced type. If the
 // reference can not be resolved, it returns an invalid struct type
 // with a name describing the error.
 func (r *RefType) Signature() string {
-	t, err := r.Scope.Search(r.Name)
+	t, err := r.search()
 	if err == nil {
+		defer r.visit()()
 		return t.Signature()
 	}
 	return signature.NewStructType(err.Error(), nil).Signature()
@@ -36,8 +58,9 @@ func (r *RefType) Signature() string {
 // reference can not be resolved, it returns an invalid name
 // describing the error.
 func (r *RefType) SignatureIDL() string {
-	t, err := r.Scope.Search(r.Name)
+	t, err := r.search()
 	if err == nil {
+		defer r.visit()()
 		return t.SignatureIDL()
 	}
 	return signature.NewStructType(err.Error(), nil).SignatureIDL()
@@ -46,8 +69,9 @@ func (r *RefType) SignatureIDL() string {
 // TypeName returns a statement to be inserted when the type is to be
 // declared.
 func (r *RefType) TypeName() *signature.Statement {
-	t, err := r.Scope.Search(r.Name)
+	t, err := r.search()
 	if err == nil {
+		defer r.visit()()
 		return t.TypeName()
 	}
 	return jen.Id(r.Name)
@@ -65,8 +89,9 @@ func (r *RefType) TypeDeclaration(file *jen.File) {
 // the variable "id" into the io.Writer "writer" while returning an
 // error.
 func (r *RefType) Marshal(id string, writer string) *signature.Statement {
-	t, err := r.Scope.Search(r.Name)
+	t, err := r.search()
 	if err == nil {
+		defer r.visit()()
 		return t.Marshal(id, writer)
 	}
 	return jen.Qual("fmt", "Errorf").Call(
@@ -78,8 +103,9 @@ func (r *RefType) Marshal(id string, writer string) *signature.Statement {
 // from a reader "reader" of type io.Reader and returns both the value
 // read and an error.
 func (r *RefType) Unmarshal(reader string) *signature.Statement {
-	t, err := r.Scope.Search(r.Name)
+	t, err := r.search()
 	if err == nil {
+		defer r.visit()()
 		return t.Unmarshal(reader)
 	}
 	return jen.Return(
@@ -101,8 +127,9 @@ func (r *RefType) resolve(set *signature.TypeSet) (signature.Type, error) {
 
 // Reader returns a TypeReader of the referenced type.
 func (r *RefType) Reader() signature.TypeReader {
-	t, err := r.Scope.Search(r.Name)
+	t, err := r.search()
 	if err == nil {
+		defer r.visit()()
 		reader, err := signature.MakeReader(t.Signature())
 		if err != nil {
 			return signature.UnknownReader(r.Signature())
@@ -113,8 +140,9 @@ func (r *RefType) Reader() signature.TypeReader {
 }
 
 func (r *RefType) Type() reflect.Type {
-	t, err := r.Scope.Search(r.Name)
+	t, err := r.search()
 	if err == nil {
+		defer r.visit()()
 		return t.Type()
 	}
 	return reflect.TypeOf((*error)(nil))
